@@ -75,6 +75,18 @@ type ChatSvc struct {
 	lag   bool // the handler starts reading late: messages queue up at the server
 }
 
+// copyingBytes is BYTESCodec with a decode that copies
+type copyingBytes struct{ rpc.BYTESCodec }
+
+func (c *copyingBytes) Unmarshal(data []byte, v interface{}) error {
+	p, ok := v.(*[]byte)
+	if !ok || p == nil {
+		return rpc.ErrorBYTES
+	}
+	*p = append([]byte(nil), data...)
+	return nil
+}
+
 // something BYTESCodec cannot marshal
 type notBytes struct{ X int }
 
@@ -193,7 +205,13 @@ func newStreamRunBad(e *Env, first int, chunkMode int, srvPipe, srvDirect, cliDi
 	r.srv.SetNoCopy(noCopy)
 	r.srv.RegisterName("Chat", &ChatSvc{log: r.log, first: first, bad: bad, lag: noCopy})
 	go func() {
-		r.srv.ServeCodec(rpc.NewServerCodec(&rpc.BYTESCodec{}, nil, r.srvRec, srvDirect, 0))
+		var body rpc.Codec = &rpc.BYTESCodec{}
+		if noCopy {
+			// NoCopy is only for codecs that do not alias their input (the message buffer goes back to the
+			// pool as soon as it has been decoded): a bytes codec that copies
+			body = &copyingBytes{}
+		}
+		r.srv.ServeCodec(rpc.NewServerCodec(body, nil, r.srvRec, srvDirect, 0))
 		close(r.done)
 	}()
 	r.conn = rpc.NewConnWithCodec(rpc.NewClientCodec(&rpc.BYTESCodec{}, nil, r.cliRec, 0))
